@@ -167,6 +167,18 @@ def step (st : St) (line : String) : St × String :=
     match c.toNat?, (McTables.table name (c.toNat?.getD 0) : Option (Sparse Rat)) with
     | some _, some t => (st, dumpSparse qstr t)
     | _, _ => (st, "bad-op")
+  | ["dispatch", k, f] =>
+    -- decision logic generated from CSvmTrainer::train
+    let t : Option McTables.McSvm := match f with
+      | "WW" => some .WW | "CS" => some .CS | "LLW" => some .LLW | "ATM" => some .ATM | "ATS" => some .ATS
+      | "ADM" => some .ADM | "MMR" => some .MMR | "RS" => some .ReinforcedSvm | "OVA" => some .OVA | _ => none
+    match k.toNat?, t with
+    | some k, some t =>
+      match McTables.dispatch k t with
+      | .binary => (st, "path=binary")
+      | .ova => (st, "path=ova")
+      | .mc fam stz sx => (st, s!"path=mc fam={fam} stz={if stz then 1 else 0} simplex={if sx then 1 else 0} linear={McTables.linearDispatch k t}")
+    | _, _ => (st, "bad-op")
   | "box" :: f :: rest =>
     match parseInts rest with
     | none => (st, "bad-op")
